@@ -1,12 +1,21 @@
 """C16 — tensor indexing, slicing, reshaping (DESIGN.md §4 C16)."""
 import itertools
 from vlib import Toks, lst
-from props import c16_hist
+from props import c16_hist, c16_translate
 
 ID = "C16"
 LEVEL = "proof"
 HARNESS = "c16"
-LEAN_MODULES = ["NanoVerif.Props.C16"]
+LEAN_MODULES = ["NanoVerif.Props.C16", "NanoVerif.Proofs.TensorGenerated"]
+
+
+def translate():
+    """Gen/TensorIndex.lean (the template recursions of dims.h), Gen/TensorGuards.lean (range.h; tslice / treshape / arange of
+    tensor.h) and Gen/TensorIntegral.lean (the two loops of integral.h), re-translated from the source of the repository under check"""
+    return c16_translate.translate()
+
+
+
 NS = "NanoVerif.Tensor."
 OBLIGATIONS = [NS + t for t in [
     "index_lt_size", "unindex_index", "index_unindex", "valid_unindex", "index_injective",
@@ -55,6 +64,22 @@ OBLIGATIONS = [NS + t for t in [
     # views of any storage tied to the addressing theorems; headline
     "obj_view_elems", "obj_slice_elems", "obj_sub_elems", "obj_reshape_elems", "viewOf_elems", "assign_preserves_elements",
     "write_alias_exact",
+]] + [NS + t for t in [
+    # translation round (Proofs/TensorGenerated.lean): the model IS the code regenerated from dims.h / range.h / tensor.h
+    "model_size_is_generated", "model_size_entry_is_generated", "model_index0_is_generated", "generated_index0_none",
+    "model_validPrefix_is_generated", "model_index_is_generated", "valid_passes_generated_asserts",
+    "generated_index_asserts_skip_last", "generated_product_int", "generated_index0_int",
+    "model_range_size_is_generated", "model_range_valid_is_generated", "model_makeRange_is_generated",
+    "model_sliceAssert_is_generated", "model_slice_guard_is_generated", "model_slice_dims_is_generated",
+    "model_sliceRange_args_is_generated", "model_iprod_is_generated", "model_reshapeInfer_is_generated",
+    "model_reshapeDims_is_generated", "generated_reshape_two_wildcards", "model_arange_is_generated", "generated_arange_step",
+    "generated_getDims0_spec", "model_dims0_is_generated", "validPrefix_length", "model_sub_is_generated",
+    # integral.h re-translated (Gen/TensorIntegral.lean)
+    "model_prefixSums_is_generated", "model_prefixSums1_is_generated", "generated_integralRows_pos", "model_accRows1_is_generated",
+    "model_integralData_is_generated", "model_integral_is_generated",
+    # algorithm.h re-translated (Gen/TensorAlgorithm.lean)
+    "model_copyRow_is_generated", "model_removeIfSkip_is_generated", "model_removeIfLoopN_is_generated",
+    "model_removeIfRowsN_is_generated",
 ]]
 TRUSTED = [
     "Lean 4.33.0 kernel (core library only for this property; no Mathlib import)",
@@ -64,6 +89,13 @@ TRUSTED = [
     "Model/TensorRange.lean of dims.h/range.h/tensor.h/storage.h/integral.h/algorithm.h/stack.h; tied to the code by the correspondence run (harness/c16.cpp on the real headers vs the compiled Lean driver, "
     "exact comparison)",
     "tools/props/c16.py generator + naive nested-loop oracle; harness/c16.cpp; g++/libstdc++/Eigen",
+    "tools/props/c16_translate.py: the translator of the template recursions of dims.h (detail::product / get_index / get_index0, size, "
+    "index, index0: `std::get<idim>` = head, `f<idim + 1>` = tail, `idim == trank` = empty list; get_dims0 / dims0 with explicit "
+    "positions), of the guards / derived values of range.h and of tslice / slice(range) / treshape / arange in tensor.h, and of the two "
+    "loops of integral.h (sub-tensor `i0` = row `i0` of the model's `rows`, `vector(i0) +=` = `zipAdd`); the generated Gen/TensorIndex.lean, "
+    "Gen/TensorGuards.lean, Gen/TensorIntegral.lean, Gen/TensorAlgorithm.lean (detail::copy and the two loops of remove_if) are readable and "
+    "the model's size / index / dims0 / ValidPrefix / T.sub / Range.valid / sliceAssert / reshapeInfer / reshapeDims / arange / prefixSums1 / "
+    "integralData / T.integral / copyRowD / removeIfSkip / removeIfLoopN / removeIfRowsN are PROVED equal to them (model_*_is_generated)",
 ]
 ASSUMPTIONS = [
     "asserts are compiled out in the release build: ops violating an assert are never generated; the model returns none there",
@@ -96,7 +128,8 @@ RULE = ("exhaustive small shapes (quick: rank 1-3 dims 0..4, rank 4 dims 0..3, r
         "histories on owners + maps + constant maps (ranks 1-5, zero-sized dims included, i64/i32): 10 directed scenarios (t = own slice, "
         "map at an offset = tensor, same-count resize, owner = owner, copy independence, moves, overlapping map = map, raw maps, expression assignment, and — outside the contract, as coded — map = bigger tensor) "
         "and random histories of 4-18 ops (new/fill/ctor/move-ctor/assign/move-assign/resize/slice/reshape/raw/drop, ranks 1-2 also assignment of an Eigen expression) with queries of "
-        "dims, pointer identity (owning slot + offset) and elements; remove_if over two tensors, full/zero through a slice, arange; "
+        "dims, pointer identity (owning slot + offset) and elements; remove_if over two tensors, full/zero through a slice, arange; range.h (make_range, begin/end/size/valid(n)) on the "
+        "grid begin -1..3 x end -1..4 x n in {0,3,4} plus random larger ranges with n at end-1 / end / end+1; "
         "a case is non-trivial when size > 1 and some dimension is not 1; distinct by op text")
 FLAVOUR = {"quick": "plain", "thorough": "asan"}
 # the quick tier is not an ASan build: glibc's allocator is asked to overwrite every released block (perturb) and to
@@ -275,6 +308,14 @@ def gen(rng, tier):
         ops.append(f"tensor full {lst(dims)} {b} {e} {0 if rng.chance(0.4) else rng.range(-9, 9)}")
         lo = rng.range(-20, 20)
         ops.append(f"tensor arange {lo} {lo + (0 if rng.chance(0.1) else rng.range(0, 12))}")
+    # range.h: every (begin, end, size) around the boundaries of valid(): empty, reversed, negative begin, end == size, end > size
+    for b in range(-1, 4):
+        for e in range(-1, 5):
+            for n in (0, 3, 4):
+                ops.append(f"tensor range {b} {e} {n}")
+    for _ in range(20):
+        b = rng.range(-5, 1000); e = b + rng.range(-3, 1000)
+        ops.append(f"tensor range {b} {e} {rng.choice([e - 1, e, e + 1, rng.range(0, 2000)])}")
     return ops
 
 
@@ -428,6 +469,9 @@ def nontrivial(op):
         return any(w in op for w in (" assign ", " massign ", " ctor ", " mctor ", " resize "))
     if o == "arange":
         return t.int() + 1 < t.int()
+    if o == "range":
+        b = t.int(); e = t.int(); n = t.int()
+        return b != e
     if o == "stackmat":
         rows = t.int(); cols = t.int(); nb = t.int()
         return rows * cols > 1 and nb > 1
@@ -439,8 +483,8 @@ def distribution(ops):
     d = {}
     for op in ops:
         t = op.split()
-        if t[1] == "arange":
-            d["arange"] = d.get("arange", 0) + 1
+        if t[1] in ("arange", "range"):
+            d[t[1]] = d.get(t[1], 0) + 1
             continue
         k = f"{t[1]}/rank{t[2]}" if t[1] not in ("stackvec", "stackmat") else (t[1] if t[1] == "stackvec" else f"stackmat/{t[4]}blocks")
         d[k] = d.get(k, 0) + 1
@@ -460,6 +504,13 @@ def oracle(op, res):
     r = Toks(res)
     if r.s() != "ok":
         return f"implementation did not answer ok: {res[:80]}"
+    if o == "range":
+        # range.h as documented: [begin, end), size = end - begin, valid(n) <=> non-empty and included in [0, n)
+        b = t.int(); e = t.int(); n = t.int()
+        got = [r.int() for _ in range(4)]
+        inside = b < e and all(0 <= i < n for i in (b, e - 1))
+        want = [b, e, e - b, 1 if inside else 0]
+        return None if got == want else f"make_range({b}, {e}): begin/end/size/valid({n}) = {got}, expected {want}"
     if o == "arange":
         lo = t.int(); hi = t.int(); got = r.ints()
         return None if got == list(range(lo, hi)) else f"arange({lo}, {hi}) = {got}"
